@@ -808,3 +808,67 @@ Definition try_access (v s : list N) (start dflt : N) (a : accessor) (addr : N) 
   | Err _ => Err tt
   | Panic => Panic
   end.
+
+(* ---------- C13 with re-configuration: WithByteOrder inside the history ---------- *)
+(* WithByteOrder: the last call wins (whatever the values, 0 included), nothing else changes *)
+Lemma with_byte_order_order r bo : r_order (with_byte_order r bo) = bo.
+Proof. reflexivity. Qed.
+Lemma with_byte_order_last r a b : with_byte_order (with_byte_order r a) b = with_byte_order r b.
+Proof. reflexivity. Qed.
+Lemma with_byte_order_keeps r bo :
+  r_data (with_byte_order r bo) = r_data r /\ r_start (with_byte_order r bo) = r_start r /\
+  r_end (with_byte_order r bo) = r_end r.
+Proof. repeat split. Qed.
+Lemma with_byte_order_same r : with_byte_order r (r_order r) = r.
+Proof. destruct r; reflexivity. Qed.
+
+(* the order in force after a history that started with order [cur] *)
+Fixpoint last_order (cur : N) (os : list op) : N :=
+  match os with
+  | [] => cur
+  | OpOrder bo :: rest => last_order bo rest
+  | OpRead _ _ :: rest => last_order cur rest
+  end.
+(* every read evaluated on a fresh copy [r0] of the object: WithByteOrder(the last order set before
+   the read, or the order the object started with), then the read *)
+Fixpoint fresh_ops (r0 : registers) (cur : N) (os : list op) : list (rres aval) :=
+  match os with
+  | [] => []
+  | OpOrder bo :: rest => fresh_ops r0 bo rest
+  | OpRead a addr :: rest => fst (access (with_byte_order r0 cur) a addr) :: fresh_ops r0 cur rest
+  end.
+
+Lemma fresh_ops_base : forall os r b cur, fresh_ops (with_byte_order r b) cur os = fresh_ops r cur os.
+Proof.
+  induction os as [|[a addr|bo] os IH]; intros r b cur; [reflexivity| |].
+  - cbn [fresh_ops]. rewrite with_byte_order_last, IH. reflexivity.
+  - cbn [fresh_ops]. apply IH.
+Qed.
+
+Theorem run_ops_pure : forall os r,
+  run_ops r os = (fresh_ops r (r_order r) os, with_byte_order r (last_order (r_order r) os)).
+Proof.
+  induction os as [|[a addr|bo] os IH]; intros r.
+  - cbn [run_ops fresh_ops last_order]. rewrite with_byte_order_same. reflexivity.
+  - cbn [run_ops fresh_ops last_order].
+    pose proof (access_keeps_data r a addr) as K.
+    rewrite with_byte_order_same.
+    destruct (access r a addr) as [x dd]. cbn [snd fst] in *. subst dd.
+    rewrite set_data_same, IH. reflexivity.
+  - cbn [run_ops fresh_ops last_order]. rewrite IH, with_byte_order_order, with_byte_order_last, fresh_ops_base.
+    reflexivity.
+Qed.
+
+Corollary run_ops_payload r os :
+  r_data (snd (run_ops r os)) = r_data r /\ r_start (snd (run_ops r os)) = r_start r /\
+  r_end (snd (run_ops r os)) = r_end r /\ r_order (snd (run_ops r os)) = last_order (r_order r) os.
+Proof. rewrite run_ops_pure. repeat split. Qed.
+Corollary run_ops_results r os : fst (run_ops r os) = fresh_ops r (r_order r) os.
+Proof. rewrite run_ops_pure. reflexivity. Qed.
+(* without re-configuration this is the earlier statement *)
+Lemma run_ops_reads r cs :
+  run_ops r (map (fun c : call => OpRead (fst c) (snd c)) cs) = run_calls r cs.
+Proof.
+  revert r. induction cs as [|[a addr] cs IH]; intros r; [reflexivity|].
+  cbn [map run_ops run_calls fst snd]. destruct (access r a addr) as [x dd]. rewrite IH. reflexivity.
+Qed.
